@@ -21,6 +21,13 @@ VARIANTS = {
         "Factory.cpp": COMMON + ["-O0", "-gline-tables-only", "-fsanitize=address"],
         "link": ["-fsanitize=address,undefined"],
     },
+    # the sanitised build plus edge coverage into a shared bitmap (tools/coverage.sh; never used by a registered command)
+    "cov": {
+        "default": COMMON + ["-O1", "-gline-tables-only", "-fsanitize=address,undefined", "-fno-sanitize=alignment,enum", "-fno-sanitize-recover=undefined",
+                             "-fsanitize-coverage=trace-pc-guard,pc-table", "-DVERIF_COV", "-fno-pie"],
+        "Factory.cpp": COMMON + ["-O0", "-gline-tables-only", "-fsanitize=address", "-fno-pie"],
+        "link": ["-fsanitize=address,undefined", "-no-pie"],
+    },
     # plain optimised build for pure enumeration where the sanitizer is not the oracle
     "fast": {
         "default": COMMON + ["-O2", "-gline-tables-only"],
@@ -28,6 +35,9 @@ VARIANTS = {
         "link": [],
     },
 }
+
+
+FORCE_VARIANT = os.environ.get("VERIF_VARIANT", "")
 
 
 class BuildError(Exception):
@@ -105,6 +115,8 @@ def _prune(dirpath, keep, pattern="*"):
 
 def build_library(repo, jobs=16, variant="asan", ref=False):
     """Returns the directory holding libnifly.a for this exact source state."""
+    if FORCE_VARIANT and variant == "asan":
+        variant = FORCE_VARIANT
     root = source_root(repo, ref)
     if not os.path.isdir(os.path.join(root, "src")):
         raise BuildError("no sources at %s" % root)
@@ -150,8 +162,10 @@ def build_library(repo, jobs=16, variant="asan", ref=False):
 
 def build_harness(repo, libdir_asan, harness_src, variant="asan", jobs=16, ref=False):
     """Compile one harness TU (plus harness/*.cpp helpers named in its first-line 'LINK:' comment)."""
+    if FORCE_VARIANT and variant == "asan":
+        variant = FORCE_VARIANT
     root = source_root(repo, ref)
-    libdir = libdir_asan if (variant == "asan" and not ref) else build_library(repo, jobs, variant, ref)
+    libdir = libdir_asan if (variant in ("asan", FORCE_VARIANT) and not ref) else build_library(repo, jobs, variant, ref)
     v = VARIANTS[variant]
     hdir = os.path.join(VERIF, "harness")
     src = os.path.join(hdir, harness_src)
